@@ -308,7 +308,13 @@ check("C16",
       "stop/reset at top level / inside the callback / inside the user's disconnect handler / queued in the same batch) is enumerated "
       "exhaustively (15 043 sequences up to length 6; 68 472 up to 7 thorough) plus seeded long ones; the model history is the order in which "
       "the Reconnector's entry points were REALLY invoked (wrapped on the instance) and 'after stopConnecting returned' is judged on that order, "
-      "after every operation and after a final drain. Direct oracle on every node plus seven real-Tub "
+      "after every operation and after a final drain. Real stack: the Reconnector of a real Tub keeps a connection to a second real Tub on the "
+      "in-memory network while traffic of every kind (callRemote, callRemoteOnly, gifts, answers, half-delivered chunks; both directions; every "
+      "stage of delivery) is in flight when the connection is lost (network cut / peer hangs up / local hang-up, with or without a reactor turn "
+      "before the loss); all 120 single-item histories + seeded multi-round ones; the invariant is evaluated on the real stack (attempt "
+      "Deferreds of Tub.getReference, Brokers that are connected and still hold the disconnect watcher, reactor timers), every round must "
+      "reach 'waiting' with initialDelay and reconnect, then stopConnecting must silence it; the invoked entry points are compared with "
+      "the model (state only). Direct oracle on every node plus seven real-Tub "
       "scenarios on the in-memory network (stop before start, cut, reconnect, stop in flight, unreachable back-off, Tub.stopService).",
       "Modelled, not verified: Twisted Deferred / DelayedCall semantics and the Tub (hand-written dispatcher), normalvariate as mu + z*sigma, "
       "doubles as exact Q. A draw below -1/jitter (probability ~3e-17) gives a negative delay: stated, not hidden.",
